@@ -179,6 +179,27 @@ class _Hang(Exception):
     pass
 
 
+def gexp(fn):
+    """Call an exporting function of the implementation under the CPU-time watchdog; once the writer has hung three
+    times in this run every further call fails at once (the run already has its witness)."""
+    if G.HANGS[0] >= 3:
+        raise G.Hang('the writer hung repeatedly earlier in this run')
+    return G.cpu_guarded(fn, cpu=2.0)
+
+
+def limit_memory(gib=16):
+    """Backstop: a writer loop that never advances allocates without bound; cap the address space of this process
+    (and of the drivers it starts) so that a runaway becomes a MemoryError instead of taking the machine down."""
+    import resource
+    try:
+        soft, hard = resource.getrlimit(resource.RLIMIT_AS)
+        cap = gib << 30
+        if soft == resource.RLIM_INFINITY or soft > cap:
+            resource.setrlimit(resource.RLIMIT_AS, (cap, hard))
+    except Exception:
+        pass
+
+
 def impl_long(s, ext, indent):
     """_write_longstring under a CPU-time watchdog (1 s of process CPU, one retry with 4 s; a split position of 0
     makes its loop spin forever). None = does not terminate."""
@@ -635,7 +656,7 @@ def corr_kv(ctx, drv):
             kv = G.gen_kv(rng, nm, o2)
             tags = G.gen_tags(rng, 0.4)
             f = io.StringIO()
-            kv.export(f, tags, ls, cs)
+            gexp(lambda: kv.export(f, tags, ls, cs))
             text = f.getvalue()
             reqs.append({'op': 'kvexport', 'ext': cs, 'label': ls, 'tags': [codes(t) for t in sorted(tags)], 'kv': kv_json(kv)})
             meta.append(('kvexport', text, kv.type.name))
@@ -653,7 +674,7 @@ def corr_kv(ctx, drv):
                 iod = IODef(nm, rng.choice(list(ValueTypes)), d)
                 tags = G.gen_tags(rng, 0.3)
                 f = io.StringIO()
-                iod.export(f, kind, tags, cs)
+                gexp(lambda: iod.export(f, kind, tags, cs))
                 text = f.getvalue()
                 reqs.append({'op': 'ioexport', 'ext': cs, 'label': ls, 'kw': codes(kind), 'tags': [codes(t) for t in sorted(tags)], 'io': io_json(iod)})
                 meta.append(('ioexport', text, kind))
@@ -699,7 +720,7 @@ def corr_kv(ctx, drv):
             body = ''
             for kv in kvs:
                 f = io.StringIO()
-                kv.export(f, frozenset(), True, cs)
+                gexp(lambda: kv.export(f, frozenset(), True, cs))
                 text = f.getvalue()
                 reqs.append({'op': 'kvexport', 'ext': cs, 'label': True, 'tags': [], 'kv': kv_json(kv)})
                 meta.append(('kvexport', text, 'edge:' + kv.type.name))
@@ -708,7 +729,7 @@ def corr_kv(ctx, drv):
                 ctx.count('kvline:edge-text')
             f = io.StringIO()
             iod = IODef('Inp', ValueTypes.VOID, t)
-            iod.export(f, 'input', frozenset(), cs)
+            gexp(lambda: iod.export(f, 'input', frozenset(), cs))
             reqs.append({'op': 'ioexport', 'ext': cs, 'label': True, 'kw': codes('input'), 'tags': [], 'io': io_json(iod)})
             meta.append(('ioexport', f.getvalue(), 'input'))
             body += '\n\t// Inputs\n' + f.getvalue() + '\t]\n'
@@ -878,7 +899,7 @@ def corr_ent(ctx, drv):
         text = ''
         for e in chunk:
             f = io.StringIO()
-            e.export(f)
+            gexp(lambda: e.export(f))
             text += '\n' + f.getvalue()
         fold, up = case_tables(text[:20000])
         reqs.append({'op': 'entexport', 'ext': True, 'label': True, 'fold': fold, 'up': up, 'ents': [ent_rec_json(e) for e in chunk]})
@@ -1147,6 +1168,12 @@ def guard(ctx, name, fn, *args):
     import traceback
     try:
         return fn(*args)
+    except G.Hang as e:
+        ctx.witness('export-hangs', f'{name}: an export call of the implementation does not terminate ({e})', {'kind': 'part', 'part': name})
+        return None
+    except MemoryError:
+        ctx.witness('export-hangs', f'{name}: the implementation exhausted the memory cap', {'kind': 'part', 'part': name})
+        return None
     except Exception as e:
         tb = traceback.extract_tb(e.__traceback__)
         inner = tb[-1].filename if tb else ''
@@ -1157,6 +1184,7 @@ def guard(ctx, name, fn, *args):
 
 
 def correspond(ctx, drivers):
+    limit_memory()
     drv = drivers['drv_c16']
     guard(ctx, 'long strings', corr_long, ctx, drv)
     guard(ctx, 'colon lists', corr_colon, ctx, drv)
@@ -1614,6 +1642,9 @@ def _snapshot(fgd):
 
 def search_argforms(ctx):
     """Every accepted argument form gives the result of the canonical form, and arguments are unchanged afterwards."""
+    if G.HANGS[0] >= 3:
+        ctx.notes.append('argument forms: skipped, the writer hangs')
+        return
     from srctools.fgd import FGD, EntityDef, EntityTypes, KVDef, IODef, ValueTypes, Resource, UnknownHelper
     from srctools.filesys import VirtualFileSystem
     from srctools import _engine_db as edb
@@ -1631,7 +1662,7 @@ def search_argforms(ctx):
         ctx.count('argform:fgds')
         # ---- export forms, repeated export, no mutation
         before = _snapshot(fgd)
-        ref = fgd.export()
+        ref = gexp(lambda: fgd.export())
         forms = {'export(None)': fgd.export(None), 'export(file=None)': fgd.export(file=None),
                  'export(kw defaults)': fgd.export(label_spawnflags=True, custom_syntax=True), 'second export()': fgd.export()}
         for pos in (0, 7):
@@ -1807,6 +1838,7 @@ def search_helpers(ctx):
 
 
 def search(ctx):
+    limit_memory()
     t0 = time.time()
     if ctx.evaluations == 0:      # driver missing: the long-string oracle still runs on the implementation
         for s in boundary_strings() + random_long(ctx.rng, 200):
